@@ -324,13 +324,20 @@ func engReplay(args []string) error {
 			if line.Status == "waiting" {
 				nwaits++
 			}
+			if k < len(b.Exps) {
+				line.HasExp, line.ExpErr = true, b.Exps[k].Err
+			}
 			lw.write(src, line, func(s string) { line.Src = s })
 			if k < len(b.Exps) {
 				got := modelProj(line, b.NNodes)
 				if pdw != nil {
 					gp, ep := pathsOf(got), pathsOf(b.Exps[k])
-					if !reflect.DeepEqual(gp, ep) {
-						pdw.Write(append(mustJSON(M{"src": src, "call": k, "op": c.Op, "kind": c.Kind, "choice": c.Choice, "expected": ep, "got": gp,
+					es := b.Exps[k].Segs
+					if es == nil {
+						es = []PSeg{}
+					}
+					if !reflect.DeepEqual(gp, ep) || !reflect.DeepEqual(got.Segs, es) {
+						pdw.Write(append(mustJSON(M{"src": src, "call": k, "op": c.Op, "kind": c.Kind, "choice": c.Choice, "expected": ep, "got": gp, "expected_segs": es, "got_segs": got.Segs,
 							"expected_status": b.Exps[k].Status, "got_status": got.Status}), '\n'))
 					}
 				}
